@@ -86,6 +86,13 @@ Theorem C05_cross : forall is_key cats levels outs,
   merge_project is_key cats levels = POk outs -> spec_cross levels outs = true.
 Proof. exact project_cross. Qed.
 
+(** the same over whole trees: all locales, namespaces and sub-key depths of a project, each level with its full key path;
+    a lone `<key>_other` inside sub-keys is the plural `<key>` as soon as some locale merges `<key>` at that path *)
+Theorem C05_cross_tree : forall is_key cats levels outs,
+  (forall pl, In pl levels -> NoDup (map fst (snd pl))) ->
+  merge_project_tree is_key cats levels = Some outs -> spec_cross_tree levels outs = true.
+Proof. exact project_cross_tree. Qed.
+
 (** the first pass alone satisfies the clause only outside the class [lone_other] (the pre-fix behaviour) *)
 Theorem C05_cross_pass1 : forall is_key cats levels, lone_other levels = false ->
   (forall ks, In ks levels -> NoDup (map fst ks) /\ exists out ws, merge_level is_key cats [] ks = ROk out ws) ->
